@@ -73,3 +73,13 @@ Check C10_timestamps_no_panic.
 Print Assumptions C10_timestamps_no_panic.
 Check C10_numbers_cleanup_no_panic.
 Print Assumptions C10_numbers_cleanup_no_panic.
+
+Require Import FL.Flw.TsdInv FL.Flw.TsdRun FL.Flw.TsdNoPanic.
+(* TimestampsDirect naming *)
+Theorem C10_timestampsdirect_no_panic c crit t0 off ops :
+  tsdcfg c crit -> tag_ok c -> Forall basic_op ops -> Forall tick_ok ops ->
+  (0 <= t0 + ts_e c off)%Z -> (t0 + elapsed ops + ts_e c off < sec_max)%Z -> (N.of_nat (length ops) <= usize_max)%N ->
+  Forall obs_ok (snd (run (sys0 t0 off) (OStart c :: ops ++ [OStop]))).
+Proof. exact (timestampsdirect_no_panic c crit t0 off ops). Qed.
+Check C10_timestampsdirect_no_panic.
+Print Assumptions C10_timestampsdirect_no_panic.
